@@ -722,5 +722,10 @@ def cfg_print_simple(G):
     rule_map = defaultdict(lambda: [])
     for rule in G.R:
         rule_map[rule.variable].append(rule.alternative)
-    rules = ['{} -> {}'.format(X, ' | '.join(list(map(print_alternative, rule_map[X])))) for X in G.ordered_variables()]
+    # the simple format has no start declaration: the head of the first line is the start variable
+    variables = G.ordered_variables()
+    if G.S in variables:
+        variables.remove(G.S)
+        variables.insert(0, G.S)
+    rules = ['{} -> {}'.format(X, ' | '.join(list(map(print_alternative, rule_map[X])))) for X in variables]
     return '\n'.join(rules)
